@@ -223,12 +223,15 @@ def cBeforeFirst (s : CSt) : Except Err CSt :=
   | .preproc => startReplay (s.file ++ encAll (s.rest.map (·.bytes)))
   | .replay => .ok { s with items := decodeFile (s.file.drop cacheRewindPos), tmp := none }
 
-/-- what the destructor leaves on disk: `none` = the content depends on how far the prefetch thread got
-(the object dies before its first pass has ended) -/
+/-- what the destructor leaves on disk.  With `Gen.Wrap.dtorDrains` (fixes/C10-3.diff) an object that dies
+in its first pass first pulls the remaining chunks through the tee, so the file is always complete; without
+it `none` = the content depends on how far the prefetch thread got -/
 def cClose (s : CSt) : Option Bytes :=
   match s.phase with
   | .replay => some s.file
-  | .preproc => if s.sawEnd then some s.file else none
+  | .preproc =>
+    if dtorDrains then some (s.file ++ encAll (s.rest.map (·.bytes)))
+    else if s.sawEnd then some s.file else none
 
 /-! ### ThreadedInputSplit as the caller observes it -/
 
